@@ -30,13 +30,18 @@ Compute(c) ==
       count == [b \in 0..(nb - 1) |-> Cardinality({ix \in I : pin(ix) = b})]
       pdvol == Prod(c.d, Len(c.shape))
       valid == \A b \in 0..(nb - 1) : count[b] > 0
-  IN [nbin |-> nb, valid |-> valid, pdvol |-> pdvol,
+      \* variance of a field with the power spectrum p(k) = 1 + k^2: sum over the modes of p(k) pdvol^2  (get_signal_variance)
+      sigvar == RSum([n \in 1..Cardinality(I) |-> RMul(RAdd(Z(1), k2[CHOOSE ix \in I : Flat(ix, c.shape) = n - 1]), Sq(pdvol))], 1, Cardinality(I))
+      bink2(b) == (CHOOSE ix \in I : pin(ix) = b)
+      sigbins == RSum([b \in 1..nb |-> RMul(RMul(Z(count[b - 1]), RAdd(Z(1), k2[bink2(b - 1)])), Sq(pdvol))], 1, nb)
+  IN [nbin |-> nb, valid |-> valid, pdvol |-> pdvol, sigvar |-> sigvar,
       pix |-> {[flat |-> Flat(ix, c.shape), k2 |-> k2[ix], bin |-> pin(ix)] : ix \in I},
       uniq |-> {[rank |-> rank(v), k2 |-> v] : v \in vals},
       bins |-> {[bin |-> b, count |-> count[b], dvol |-> RMul(Z(count[b]), pdvol)] : b \in 0..(nb - 1)},
       ok |-> /\ RSum([b \in 1..nb |-> Z(count[b - 1])], 1, nb) = Z(Cardinality(I))              \* the bins partition the grid
              /\ RSum([b \in 1..nb |-> RMul(Z(count[b - 1]), pdvol)], 1, nb) = RMul(Z(Cardinality(I)), pdvol)   \* sum of bin volumes = partner volume
-             /\ (c.binning = "natural" => valid)]
+             /\ (c.binning = "natural" => valid)
+             /\ (c.binning = "natural" => sigvar = sigbins)]                                                   \* per mode = per bin (count x spectrum)
 Init == cfg = [shape |-> <<>>, d |-> <<>>, binning |-> "none", bounds |-> <<>>] /\ res = [ok |-> TRUE]
 Choose == /\ cfg.shape = <<>>
           /\ \E sh \in Shapes : \E dd \in [1..Len(sh) -> Dists] :
@@ -44,10 +49,15 @@ Choose == /\ cfg.shape = <<>>
                \/ \E b \in Bounds : cfg' = [shape |-> sh, d |-> dd, binning |-> "custom", bounds |-> b] /\ res' = Compute(cfg')
 Next == Choose \/ (cfg.shape # <<>> /\ UNCHANGED <<cfg, res>>)
 Spec == Init /\ [][Next]_<<cfg, res>>
+\* linear bin bounds: nbin - 1 bounds from first to last, equidistant (PowerSpace.linear_binbounds)
+LinFirst == R(1, 2)   LinLast == Z(3)
+LinBound(nb, i) == RAdd(LinFirst, RMul(Z(i - 1), RDiv(RSub(LinLast, LinFirst), Z(nb - 2))))
+ASSUME \A nb \in 3..6 : LinBound(nb, 1) = LinFirst /\ LinBound(nb, nb - 1) = LinLast /\ \A i \in 1..(nb - 2) : RSub(LinBound(nb, i + 1), LinBound(nb, i)) = RDiv(RSub(LinLast, LinFirst), Z(nb - 2))
 Law == res.ok
 RatJ(q) == [n |-> q[1], d |-> q[2]]
 Emit == cfg.shape = <<>> \/ PrintT(ToJson([shape |-> cfg.shape, d |-> [a \in 1..Len(cfg.d) |-> RatJ(cfg.d[a])], binning |-> cfg.binning,
-           bounds |-> [a \in 1..Len(cfg.bounds) |-> RatJ(cfg.bounds[a])], nbin |-> res.nbin, valid |-> res.valid, pdvol |-> RatJ(res.pdvol),
+           bounds |-> [a \in 1..Len(cfg.bounds) |-> RatJ(cfg.bounds[a])], nbin |-> res.nbin, valid |-> res.valid, pdvol |-> RatJ(res.pdvol), sigvar |-> RatJ(res.sigvar),
+           lin |-> [nb \in 3..6 |-> [i \in 1..(nb - 1) |-> RatJ(LinBound(nb, i))]],
            pix |-> {[flat |-> p.flat, k2 |-> RatJ(p.k2), bin |-> p.bin] : p \in res.pix},
            uniq |-> {[rank |-> u.rank, k2 |-> RatJ(u.k2)] : u \in res.uniq},
            bins |-> {[bin |-> b.bin, count |-> b.count, dvol |-> RatJ(b.dvol)] : b \in res.bins}]))
